@@ -215,6 +215,12 @@ class Loops:
                 nv = fresh_like(ex, cur, tag)
                 ex.write(p, nv)
                 ex.calls.type_inv_tree(ex, nv)
+                # machine range of havocked integer variables
+                sh = ex.var_shapes.get(p.root) if not p.acc else None
+                if sh is not None and sh[0] == 'int' and z3.is_expr(nv):
+                    from .core import int_range
+                    lo, hi = int_range(sh[1], sh[2])
+                    ex.assume(z3.And(nv >= lo, nv <= hi))
 
     def havoc_elems(self, ex, cur, tag):
         if isinstance(cur, SVal) and set(cur.f) == {'_vec'}:
@@ -342,7 +348,19 @@ class Loops:
                 return b - v
             return None
 
+        def facts():
+            if not lspec.get('facts'):
+                return
+            env = S.Env(ex, ex.store, dict(ex.names), ex.this_path, {})
+            extra = {'pre': OldNS(env_pre), 'old': OldNS(ex.entry_env) if ex.entry_env else None}
+            extra.update(ex.cur_contract.extra_env if ex.cur_contract else {})
+            extra.update(ex.spec_lets)
+            for e in lspec['facts']:
+                ex.assume(S.spec_eval(e, env, extra))
+                ex.assumed.add('unfolding of a spec-function definition: ' + e)
+
         # 1. invariants hold on entry
+        facts()
         for lab, e in invariants('init'):
             ex.oblige('inv_init', '%s.%s' % (tag, lab), e, n, props=lspec.get('props'))
         # 2. havoc, assume invariants
@@ -351,6 +369,7 @@ class Loops:
             ex.assume(e)
         for lab, e in invariants('assume'):
             ex.assume(e)
+        facts()
         if lspec.get('assume'):
             env = S.Env(ex, ex.store, dict(ex.names), ex.this_path, {})
             extra = {'pre': OldNS(env_pre), 'old': OldNS(ex.entry_env) if ex.entry_env else None}
